@@ -41,4 +41,45 @@ def run(ctx):
         model_check(ctx, [p], invariants=["C17_LoggerExact"], properties=[], with_paging=True, tag="log", max_api_fails=0)
 
 
+    oversized_call_part(ctx)
+
+
+def oversized_call_part(ctx):
+    """A map / parallel whose result was replaced by a summary (each branch small, no durable operation inside) is rebuilt from its
+    branches on replay; once that call - the last completed operation - has been passed, log calls are emitted again."""
+    from checks.durable_common import run_campaign, scen_of
+    st = {"k": "step", "loginside": True}
+    progs = [{"nodes": [L("a"), {"k": "map", "explicit_cfg": True, "medium_items": [0, 1, 2], "branches": [[], [], []]}, L("b"), {"k": "wait"},
+                        L("c"), st, L("d")]},
+             {"nodes": [{"k": "par", "explicit_cfg": True, "medium_items": [0, 1, 2], "branches": [[], [], []]}, {"k": "wait"}, L("c"),
+                        {"k": "wait"}, L("d"), st]}]
+    items = [(p, {"seed": 400 + k, "max_inv": 8, **({"paging": "random"} if k % 2 else {})}) for p in progs for k in range(3 if ctx.quick else 12)]
+    from harness.interp import path_id
+    for e in run_campaign(ctx, items):
+        # position of every top-level log call = number of operations before it; operations are "1", "2", ...
+        pos, nops = {}, 0
+        for n in e.prog["nodes"]:
+            if n["k"] == "log":
+                pos[n["pt"]] = nops
+            else:
+                nops += 1
+        ids = {path_id(str(k)): k for k in range(1, nops + 1)}
+        for r in e.invocations:
+            if r.inv == 1 or r.outcome == "CRASHED" or (r.split is not None and r.split[0] <= 1):
+                continue
+            done = {ids[o] for o, stt in getattr(r, "ops_at_start", {}).items() if o in ids and stt in ("SUCCEEDED", "FAILED")}
+            evs = r.events
+            for k, ev in enumerate(evs):
+                if ev["ev"] != "LogCall":
+                    continue
+                pt = ev["pt"].split("@")[-1]
+                if pt not in pos or any(d > pos[pt] for d in done):
+                    continue            # (inside a step, or a completed operation still lies ahead: not judged here)
+                nxt = next((x for x in evs[k + 1:] if x.get("th") == ev.get("th")), None)
+                if not (nxt is not None and nxt["ev"] == "LogEmit" and nxt["pt"] == ev["pt"]):
+                    ctx.violation("log-missing", f"invocation {r.inv}: log call {ev['pt']} not emitted although the last completed operation "
+                                                 f"(after an oversized map / parallel rebuilt from its branches) has been passed", scen_of(e))
+                    break
+
+
 replay = replay_execution
